@@ -88,17 +88,17 @@ def host_histories(sc, lg, end):
         ctl = []       # (clock, order, kind, value): state profile points first, then what the actors did, in log order
         for p in sc["profiles"]:
             if p["res"] == hn and p["kind"] == "hstate":
-                for d, v in orc.expand(p, end):
-                    ctl.append((d, 0, "state", v > 0))
+                for j, (d, v) in enumerate(orc.expand(p, end)):
+                    ctl.append((d, 0, j, "state", v > 0))
         for k, (actor, clock, op, a, b) in enumerate(lg.ops):
             if a != hn:
                 continue
             if op == "off":
-                ctl.append((clock, 1 + k, "state", False))
+                ctl.append((clock, 1, k, "state", False))
             elif op == "on":
-                ctl.append((clock, 1 + k, "state", True))
+                ctl.append((clock, 1, k, "state", True))
             elif op == "pstate":
-                ctl.append((clock, 1 + k, "pstate", int(b)))
+                ctl.append((clock, 1, k, "pstate", int(b)))
         ctl.sort()
         cuts = sorted(set([0.0, end] + [c[0] for c in ctl if c[0] <= end] + [x for pc in pieces[hn] for x in pc[:2] if x <= end]))
         segs = []
@@ -108,10 +108,10 @@ def host_histories(sc, lg, end):
             on, ps = True, 0
             for c in ctl:
                 if c[0] <= a_:
-                    if c[2] == "state":
-                        on = c[3]
+                    if c[3] == "state":
+                        on = c[4]
                     else:
-                        ps = c[3]
+                        ps = c[4]
             speed = h["speeds"][ps]
             demand = 0.0
             for p0, p1, thr, bound in pieces[hn]:
